@@ -1267,3 +1267,58 @@ def replay(ctx, path):
             bad = got.split()[0] != want
     print("property %s on the current tree" % ("VIOLATED" if bad else "holds"))
     return 1 if bad else 0
+
+
+# ------------------------------------------------------------------ C19: a quick-sized stream for the configuration replay
+def c19_stream():
+    """(harness, driver, fn, uses_bash) for props/C19.py: fn(ctx, exe, w) -> op lines.  The stream is the staged quick
+    generator thinned to well under 1500 ops (the Lean affine arithmetic is slow and C19 runs the driver in one process);
+    later stages are built from the outputs of `exe` (the reference build).  Kept on purpose: every op family on every
+    parameter set at least once, BOTH sides of every DH / MTI pair (incl. pfok l = 2462, where a word-size dependent
+    Montgomery constant would show), dstu signatures of minimal and larger ld with their padding alterations.
+    All ops are octet-level: nothing depends on the machine-word size `w`."""
+
+    class _Shim:
+        def __init__(self, ctx):
+            self.rng, self.tier = ctx.rng, "quick"
+
+    def fn(ctx, exe, w):
+        def run_c(lines):
+            out, err, rc = ctx.run_lines(exe, lines)
+            if rc != 0 or len(out) != len(lines):
+                raise RuntimeError("c16 harness failed while building the C19 stream: " + err[-300:])
+            return out
+
+        g = Gen(_Shim(ctx), load_sets(), run_c)
+        rng = ctx.rng
+
+        def thin(ops, meta, fr):
+            seen, ko, km = set(), [], []
+            for o, m in zip(ops, meta):
+                t = o.split()
+                fam = t[0]
+                si = t[1] if len(t) > 1 and t[1].isdigit() and len(t[1]) == 1 else "-"
+                cls = m.get("lab", m.get("kind"))
+                if fam == "dstu.sign" and "cv" in m and "ld" in m:
+                    cls = (cls, "min" if m["ld"] == 16 * m["cv"].oo else "larger")
+                key = (fam, si, cls, m.get("side"))
+                keep_all = fam in ("pfok.dh", "pfok.mti") or m.get("genuine") or fam.endswith(".params") or \
+                    fam in ("dstu.pgen", "dstu.sign", "g12.sign", "b96.sign", "b96.sign2", "dstu.comp", "dstu.kgen")
+                if keep_all or key not in seen or rng.random() < fr:
+                    ko.append(o)
+                    km.append(m)
+                seen.add(key)
+            return ko, km
+
+        stream = [corpus_meta(l)[0] for l in corpus_lines()]
+        o, m = thin(*g.stage1(), fr=0.15)
+        stream += o
+        for fr in (0.04, 0.04, 0.04):
+            c = run_c(o)
+            o, m = thin(*g.follow(o, m, c), fr=fr)
+            if not o:
+                break
+            stream += o
+        return stream[:1500]
+
+    return ("harness/c16.c", "drv_c16", fn, False)
